@@ -253,6 +253,28 @@ theorem ka_fresh (H : Nat) (hH : 3 ≤ H) (ps : List Poll) (s : Sess) (L A prev 
       simp only [lastPollMs]
       exact ih _ _ _ p.t i (by omega) ho
 
+/-! ### outbound traffic, establishment -/
+
+/-- Outbound writes are invisible to the timers: a run over events is the run over its polls. -/
+theorem runEv_eq_run (s : Sess) (evs : List Ev) :
+    (s.runEv evs).1 = (s.run (pollsOf evs)).1 ∧
+    kaTimes (s.runEv evs).2 = kaTimes (s.run (pollsOf evs)).2 := by
+  induction evs generalizing s with
+  | nil => simp [Sess.runEv, Sess.run, pollsOf]
+  | cons e es ih =>
+    cases e with
+    | poll p =>
+      obtain ⟨h1, h2⟩ := ih (s.poll p).1
+      simp only [Sess.runEv, Sess.step, pollsOf, run_cons]
+      refine ⟨h1, ?_⟩
+      cases hf : (s.poll p).2 <;> simp [kaTimes, h2]
+    | out t k =>
+      obtain ⟨h1, h2⟩ := ih s
+      simp only [Sess.runEv, Sess.step, pollsOf]
+      exact ⟨h1, by simpa [kaTimes] using h2⟩
+
+theorem establish_eq (l p tR tS : Nat) : Sess.establish l p tR tS = Sess.init (min l p) tR tS := rfl
+
 /-! ### hold time zero -/
 
 structure Inv0 (s : Sess) : Prop where
